@@ -351,6 +351,8 @@ def _gen_ops(rng, n, allow_acquire=True):
 
 
 def generate(ctx):
+    from props._stores_util import ensure_budget
+    ensure_budget(ctx)
     rng = ctx.rng
     # the documented example and its neighbours
     yield "history", {"ops": [["new", None], ["copy", 0, "pickle"], ["copy", 0, "pickle"], ["acquire", 1], ["acquire", 2],
